@@ -262,6 +262,18 @@ class PyTarget(Target):
     def probe(self):
         return json.loads(self.ask(["probe"])[0])
 
+    def stats(self):
+        """How often each input spelling was exercised so far (sum over the worker processes; see codec_pyworker.py)."""
+        total = {}
+        for w in self.workers:
+            if w.proc is not None and w.proc.poll() is None:
+                try:
+                    for k, v in json.loads(w.ask(["stats"])[0]).items():
+                        total[k] = total.get(k, 0) + v
+                except (ValueError, IndexError):
+                    pass
+        return total
+
     def close(self):
         for w in self.workers:
             w.close()
@@ -385,7 +397,7 @@ class _CGen:
         if isinstance(t, pydsdl.SignedIntegerType):
             return [f"{lv} = ({_c_storage(t)}) p_i64(p);"]
         if isinstance(t, pydsdl.FloatType):
-            return [f"{lv} = ({_c_storage(t)}) p_f64(p);"]
+            return [f"{lv} = p_f64(p);" if t.bit_length == 64 else f"{lv} = p_f32(p);"]
         raise ValueError(t)
 
     def parse_value(self, t, lv):
@@ -417,7 +429,7 @@ class _CGen:
             if isinstance(t.element_type, pydsdl.BooleanType):
                 arr = f"{obj}{name}.bitpacked"
                 out += [f"    const bool b = p_u64(p) != 0;",
-                        f"    if ({n} < {t.capacity}U) {{ if (b) {{ {arr}[{n} / 8U] |= (uint8_t) (1U << ({n} % 8U)); }} else {{ {arr}[{n} / 8U] &= (uint8_t) ~(1U << ({n} % 8U)); }} }}"]
+                        f"    if ({n} < sizeof({arr}) * 8U) {{ if (b) {{ {arr}[{n} / 8U] |= (uint8_t) (1U << ({n} % 8U)); }} else {{ {arr}[{n} / 8U] &= (uint8_t) ~(1U << ({n} % 8U)); }} }}"]
             else:
                 et = t.element_type
                 ctype = c_name(et) if isinstance(et, pydsdl.CompositeType) else _c_storage(et)
@@ -496,18 +508,70 @@ class _CGen:
 
 
 _C_HANDLER = r'''
+/* answer of one deserialization into *dst: "ok <dump> <consumed>" or "err:<kind>" */
 #define DEFINE_HANDLER(IDX, T)                                                                                        \
+    static void de_answer_##IDX(T* dst, const uint8_t* in, size_t n)                                                  \
+    {                                                                                                                 \
+        size_t sz = n;                                                                                                \
+        const int rc = T##_deserialize_(dst, in, &sz);                                                                \
+        if (rc < 0) { o_str(err_name(rc)); }                                                                          \
+        else { o_str("ok"); dump_##T(dst); o_u64(sz); }                                                               \
+    }                                                                                                                 \
+    /* the same request in other spellings of the C API; 1 = an alternative differs (answer replaced) */             \
+    static int de_alternatives_##IDX(const uint8_t* in, size_t n)                                                     \
+    {                                                                                                                 \
+        char* prim = o_take();                                                                                        \
+        T* o3 = (T*) malloc(sizeof(T));                                                                               \
+        /* (a) the representation is a sub-range of a larger buffer, other data before and behind it;               \
+               destination zeroed instead of A5 */                                                                    \
+        uint8_t* big = (uint8_t*) malloc(n + 48);                                                                     \
+        memset(big, 0xEE, 16); memcpy(big + 16, in, n); memset(big + 16 + n, 0xFF, 32);                               \
+        memset(o3, 0x00, sizeof(T));                                                                                  \
+        de_answer_##IDX(o3, big + 16, n);                                                                             \
+        free(big);                                                                                                    \
+        if (o_differs(prim, "embedded-in-larger-buffer")) { free(o3); free(prim); return 1; }                         \
+        if (n == 0)                                                                                                   \
+        {                                                                                                             \
+            /* (b) documented: a NULL buffer is accepted when the size is zero */                                     \
+            memset(o3, 0x5A, sizeof(T));                                                                              \
+            de_answer_##IDX(o3, NULL, 0);                                                                             \
+            if (o_differs(prim, "null-buffer-size-0")) { free(o3); free(prim); return 1; }                            \
+            /* (c) _initialize_ is documented as the deserialization of the empty representation */                   \
+            memset(o3, 0xA5, sizeof(T));                                                                              \
+            T##_initialize_(o3);                                                                                      \
+            o_str("ok"); dump_##T(o3); o_u64(0);                                                                      \
+            if (o_differs(prim, "initialize")) { free(o3); free(prim); return 1; }                                    \
+        }                                                                                                             \
+        free(o3);                                                                                                     \
+        o_str(prim);                                                                                                  \
+        free(prim);                                                                                                   \
+        return 0;                                                                                                     \
+    }                                                                                                                 \
     static int handle_##IDX(const char* op, const char* rest)                                                         \
     {                                                                                                                 \
-        const int is_ser = !strcmp(op, "ser"), is_serbuf = !strcmp(op, "serbuf"), is_rt = !strcmp(op, "rt");            \
+        const int is_ser = !strcmp(op, "ser"), is_serbuf = !strcmp(op, "serbuf");                                      \
+        const int is_rtreuse = !strcmp(op, "rtreuse"), is_rt = !strcmp(op, "rt") || is_rtreuse;                        \
         if (is_ser || is_serbuf || is_rt)                                                                             \
         {                                                                                                             \
             T* obj = (T*) calloc(1, sizeof(T));                                                                       \
+            T* o2 = (T*) malloc(sizeof(T));                                                                           \
+            memset(o2, 0xA5, sizeof(T));                                                                              \
             P p = {rest, 0};                                                                                          \
             parse_##T(&p, obj);                                                                                       \
+            if (is_rtreuse)                                                                                           \
+            {                                                                                                         \
+                /* prior state: the first value goes through obj and (if it serializes) through o2; then the        \
+                   second value is parsed into the SAME obj and decoded into the SAME o2 */                           \
+                size_t s0 = T##_SERIALIZATION_BUFFER_SIZE_BYTES_;                                                     \
+                uint8_t* b0 = guarded_alloc(s0, 0x00);                                                                \
+                if (!p.err && T##_serialize_(obj, b0, &s0) >= 0) { size_t z = s0; (void) T##_deserialize_(o2, b0, &z); } \
+                guarded_free(b0);                                                                                     \
+                { const char* bar = strchr(rest, '|'); if (bar) { p.p = bar + 1; p.err = 0; } else { p.err = 1; } }    \
+                parse_##T(&p, obj);                                                                                   \
+            }                                                                                                         \
             size_t cap = T##_SERIALIZATION_BUFFER_SIZE_BYTES_;                                                        \
             if (is_serbuf) { cap = (size_t) p_u64(&p); }                                                              \
-            if (p.err) { free(obj); return 0; }                                                                       \
+            if (p.err) { free(obj); free(o2); return 0; }                                                             \
             const uint8_t fill = is_serbuf ? 0x55 : 0xFF;                                                             \
             uint8_t* buf = guarded_alloc(cap, fill);                                                                  \
             size_t size = cap;                                                                                        \
@@ -522,8 +586,6 @@ _C_HANDLER = r'''
                 o_hex(buf, size);                                                                                     \
                 if (is_rt)                                                                                            \
                 {                                                                                                     \
-                    T* o2 = (T*) malloc(sizeof(T));                                                                   \
-                    memset(o2, 0xA5, sizeof(T));                                                                      \
                     uint8_t* in = (uint8_t*) malloc(size ? size : 1);                                                 \
                     memcpy(in, buf, size);                                                                            \
                     size_t sz = size;                                                                                 \
@@ -540,25 +602,51 @@ _C_HANDLER = r'''
                         guarded_free(b2);                                                                             \
                     }                                                                                                 \
                     free(in);                                                                                         \
-                    free(o2);                                                                                         \
                 }                                                                                                     \
             }                                                                                                         \
             guarded_free(buf);                                                                                        \
+            free(o2);                                                                                                 \
             free(obj);                                                                                                \
             return 1;                                                                                                 \
         }                                                                                                             \
-        if (!strcmp(op, "de"))                                                                                        \
+        const int is_dereuse = !strcmp(op, "dereuse");                                                                \
+        if (!strcmp(op, "de") || is_dereuse)                                                                          \
         {                                                                                                             \
             uint8_t* in = NULL;                                                                                       \
-            const size_t n = hex_decode(rest, &in);                                                                   \
+            size_t n = hex_decode(rest, &in);                                                                         \
             T* o2 = (T*) malloc(sizeof(T));                                                                           \
             memset(o2, 0xA5, sizeof(T));                                                                              \
-            size_t sz = n;                                                                                            \
-            const int rc = T##_deserialize_(o2, in, &sz);                                                             \
-            if (rc < 0) { o_str(err_name(rc)); }                                                                      \
-            else { o_str("ok"); dump_##T(o2); o_u64(sz); }                                                            \
+            if (is_dereuse)                                                                                           \
+            {                                                                                                         \
+                /* the first string only leaves its traces in the object (whatever the outcome) */                   \
+                size_t z = n;                                                                                         \
+                (void) T##_deserialize_(o2, in, &z);                                                                  \
+                free(in);                                                                                             \
+                n = hex_decode(second_token(rest), &in);                                                              \
+            }                                                                                                         \
+            de_answer_##IDX(o2, in, n);                                                                               \
             free(o2);                                                                                                 \
+            (void) de_alternatives_##IDX(in, n);                                                                      \
             free(in);                                                                                                 \
+            return 1;                                                                                                 \
+        }                                                                                                             \
+        if (!strcmp(op, "api"))                                                                                       \
+        {                                                                                                             \
+            /* argument conventions of the generated functions: NULL arguments are refused with                     \
+               -NUNAVUT_ERROR_INVALID_ARGUMENT, except a NULL source buffer of size zero */                           \
+            T* o = (T*) calloc(1, sizeof(T));                                                                         \
+            uint8_t b[1] = {0};                                                                                       \
+            size_t z = 1;                                                                                             \
+            o_str("ok");                                                                                              \
+            o_i64(T##_serialize_(NULL, b, &z));                                                                       \
+            z = T##_SERIALIZATION_BUFFER_SIZE_BYTES_; o_i64(T##_serialize_(o, NULL, &z));                             \
+            o_i64(T##_serialize_(o, b, NULL));                                                                        \
+            z = 0; o_i64(T##_deserialize_(NULL, b, &z));                                                              \
+            o_i64(T##_deserialize_(o, b, NULL));                                                                      \
+            z = 1; o_i64(T##_deserialize_(o, NULL, &z));                                                              \
+            z = 0; o_i64(T##_deserialize_(o, NULL, &z));                                                              \
+            T##_initialize_(NULL);                                                                                    \
+            free(o);                                                                                                  \
             return 1;                                                                                                 \
         }                                                                                                             \
         if (!strcmp(op, "probe")) { probe_##IDX(); return 1; }                                                        \
